@@ -118,6 +118,40 @@ def std(cases):
     return out
 
 
+def threads(cases):
+    """Several threads of one process hash different files at the same time (two fillers driven from two threads do that)."""
+    import threading
+    from sedpack.io.utils import hash_checksums
+    out = []
+    for c in cases:
+        tmp = Path(tempfile.mkdtemp(prefix="verif_hash_thr_"))
+        try:
+            files = []
+            for i, size in enumerate(c["sizes"]):
+                p = tmp / f"f{i}.bin"
+                p.write_bytes(content(size, i + 7))
+                files.append(p)
+            want = [[ref_digest(a, p.read_bytes()) for a in c["algs"]] for p in files]
+            bad = []
+            lock = threading.Lock()
+
+            def work(k):
+                for _ in range(c["rounds"]):
+                    got = list(hash_checksums(files[k], tuple(c["algs"])))
+                    if got != want[k]:
+                        with lock:
+                            bad.append(k)
+            ths = [threading.Thread(target=work, args=(k,)) for k in range(len(files))]
+            for t in ths:
+                t.start()
+            for t in ths:
+                t.join()
+            out.append({"wrong": len(bad), "calls": c["rounds"] * len(files)})
+        finally:
+            shutil.rmtree(tmp, ignore_errors=True)
+    return out
+
+
 def dataset(cases):
     import numpy as np
     from sedpack.io import Dataset, Metadata, DatasetStructure, Attribute
@@ -195,6 +229,8 @@ def main():
         res["std"] = std(req["std"])
     if "dataset" in req:
         res["dataset"] = dataset(req["dataset"])
+    if "threads" in req:
+        res["threads"] = threads(req["threads"])
     print("@@RESULT@@" + json.dumps(res))
 
 
